@@ -368,6 +368,42 @@ def random_schema(seed, idx):
     return schema(name, "bigEndian" if big else "littleEndian", hdr, types, msgs, sid=r.range(1, 200), version=r.range(0, 5))
 
 
+def v2_of(sch, seed):
+    """A later version of the schema, as the SBE extension rules allow: the same types, messages,
+    groups and data members, with one to three new fields of built-in primitive types *appended* to
+    the block of every message and of every group (and the schema version raised). A peer compiled
+    from it produces images whose blocks are longer than the ones `sch` was compiled with."""
+    import copy
+    v2 = copy.deepcopy(sch)
+    v2["name"] = sch["name"] + "v2"
+    v2["version"] = sch["version"] + 1
+    r = Rng(seed * 1000003 + sum(ord(c) for c in sch["name"]) + 17)
+    uid = [0]
+    types = {t["name"]: t for t in [v2["header"]] + v2["types"]}
+
+    def width_of(comp, member):
+        e = [x for x in comp["elements"] if x["name"] == member][0]
+        if e["k"] == "ref":
+            e = types[e["type"]]
+        return PRIMS[e["prim"]]
+
+    def extend(level, bl_width):
+        # stay far below what the blockLength field can express (layout asserts on overflow)
+        small = bl_width == 1
+        for _ in range(r.range(1, 2 if small else 3)):
+            uid[0] += 1
+            level["fields"].append(F("v2f%d" % uid[0], r.pick(["uint8", "char", "int8"] if small else ["uint8", "uint16", "int32", "uint64", "double", "char"])))
+        for g in level["groups"]:
+            extend(g, width_of(types[g["dim"]], "blockLength"))
+
+    for m in v2["messages"]:
+        extend(m, width_of(v2["header"], "blockLength"))
+    return v2
+
+
+V2_RANDOM = {"quick": 4, "thorough": 16}
+
+
 def corpus(tier, seed):
     out = corner_schemas()
     n = 8 if tier == "quick" else 56
